@@ -6,7 +6,7 @@ from fractions import Fraction
 
 THEOREMS = ['set_keys_nodup', 'ofNodes_keys_nodup', 'resolve_any_order', 'run_order_independent', 'sorted_totals_order_irrelevant', 'sorted_elements_order_irrelevant']
 LEVEL = 'proof'
-RULE = ('every command on inputs biased towards what map order could expose: >= 3 unresolved foods, tied quantities, tied element values, '
+RULE = ('every command on inputs biased towards what map order could expose: >= 3 unresolved foods, tied quantities, tied element values, near-tied amounts (unequal, closer than 1e-9, names running against the amounts), '
         'recipe chains around the depth limit; each invocation repeated R times in-process (thorough: also as separate processes); '
         'non-trivial = >= 3 entries at a ranged map or >= 2 tied sort keys; distinct by input hash')
 ASSUMPTIONS = ["Go's actual map randomisation is sampled by repetition; the theorem covers every visiting order of the model"]
@@ -31,10 +31,37 @@ def gen(g, count, reps):
         log = g.log(book=book, exact=True, unusual=0.1, in_book=0.35, direct=0.1, max_entries=10)
         # tie quantities: many foods logged with quantity 1
         log = [(d, [(f, Qty(b'1', Fraction(1)) if r.random() < 0.5 else q) for f, q in ents], ns) for d, ents, ns in log]
+        exact = True
+        if r.random() < 0.3:
+            # near ties: unequal amounts closer than any plausible tolerance, names running against the amounts,
+            # every food logged once (so that no rounding of sums is involved)
+            from ..gen import dec_str
+            foods = sorted({f for _, ents, _ in log for f, _ in ents}, reverse=r.random() < 0.7)
+            base = Fraction(r.choice([25, 150, 100, 330, 5]), 100)
+            delta = Fraction(r.choice([1, 4, 6, 10]), 10 ** r.choice([10, 10, 11, 12]))
+            amount = {f: base + k * delta for k, f in enumerate(foods)}
+            seen = set()
+            nlog = []
+            for d, ents, ns in log:
+                ne = []
+                for f, q in ents:
+                    if f in seen:
+                        continue
+                    seen.add(f)
+                    ne.append((f, Qty(dec_str(amount[f]), amount[f], False)))
+                nlog.append((d, ne, ns))
+            log = nlog
+            # the same for element values (element-total orders the resolved database by value)
+            names = sorted([n for n, _ in book], reverse=True)
+            kcal = {n: Fraction(100) + k * delta for k, n in enumerate(names)}
+            book = [(n, [(i, q) for i, q in ings if i != b'calories'] + [(b'calories', Qty(dec_str(kcal[n]), kcal[n], False))]) for n, ings in book]
+            exact = False
+            g.r.random()
         files = base_files(g, book, log)
         n = r.choice([None, None, spec.max_height(spec.book_map(book)), spec.max_height(spec.book_map(book)) + 1])
         for path, args, s in CMDS:
-            c = app(path, files, args=args, s=s, g={'maxdepth': n} if n else {}, reps=reps, kind=' '.join(path + [k for k in s]))
+            c = app(path, files, args=args, s=s, g={'maxdepth': n} if n else {}, reps=reps, exact=exact, kind=' '.join(path + [k for k in s]))
+            c.meta['near_ties'] = not exact
             c.meta.update({'log': log, 'book': book})
             cases.append(c)
     return cases
@@ -58,6 +85,7 @@ def run(ctx):
     for c in cases:
         unresolved = {f for _, ents, _ in c.meta['log'] for f, _ in ents} - {n for n, _ in c.meta['book']}
         ctx.count('unresolved>=3' if len(unresolved) >= 3 else 'unresolved<3')
+        ctx.count('near-tie amounts' if c.meta.get('near_ties') else 'ordinary amounts')
         if len(unresolved) >= 3:
             ctx.mark_nontrivial(sig(c.files, c.meta['kind']))
     ctx.sample({'cmd': cases[0].shell(), 'repetitions': reps, 'log': cases[0].files[b'log.yaml'].decode('utf-8', 'replace')[:400]})
